@@ -5,9 +5,7 @@ from checks import histcommon
 
 
 def sig_fn(ref, t, a, tainted):
-    # known finding F6b: an owner outlived destroy_sandbox; its key and backend slot survive into the next incarnation
-    if tainted:
-        return "C13/registration-survives-destroy-create"
+    # F6b (registrations of an earlier incarnation survive destroy/create) was repaired; nothing is suppressed any more
     return None
 
 
@@ -26,6 +24,8 @@ def run(chk):
     blocks = []
     # corpus: witnesses of the findings first
     blocks.append("hnew vsbx2|create 0 ok 0|reg 0 0 0|reg 0 1 1|cbmove 0 1|stat|hprobe 0".split("|"))
+    blocks.append("hnew vsbx2|create 0 ok 0|reg 0 0 0|stat|destroy 0|create 0 ok 0|stat|reg 0 1 0|stat|cbdestroy 0|stat|hprobe 0".split("|"))   # F6b (repaired)
+    blocks.append("hnew noop|create 0 ok|reg 0 0 0|destroy 0|create 0 ok|reg 0 1 0|stat|cbdestroy 0|stat|reg 0 2 0".split("|"))
     blocks.append("hnew vsbx2|create 0 ok 0|reg 0 0 0|reg 0 0 1|stat|hprobe 0".split("|"))
     blocks.append(["hnew noop", "create 0 ok"] + [f"reg 0 {k % 3} {k}" if False else f"reg 0 0 {k}" for k in range(0)] + ["stat"])
     # (1) exhaustive to depth 3 (thorough 4) on the 2-slot backend: 3 functions x 3 owners x 1 sandbox + lifecycle
@@ -46,7 +46,7 @@ def run(chk):
                 b += [o, "stat"]
             blocks.append(b + ["hprobe 0"])
     # (1b) incarnation histories: a registration, destroy + re-create while its owner is still alive, then every short suffix --
-    #      the territory of the known finding F6b, explored so that any OTHER deviation there is still seen
+    #      (the territory of the repaired defect F6b)
     regs = [f"reg 0 {o} {f}" for o in range(3) for f in range(2)]
     suffix_ops = ([f"reg 0 {o} {f}" for o in range(3) for f in range(2)] + [f"cbunreg {o}" for o in range(3)] + [f"cbdestroy {o}" for o in range(2)] +
                   [f"cbmove {d} {s}" for d in range(3) for s in range(3) if d != s])
@@ -82,6 +82,13 @@ def run(chk):
     blocks.append(["hnew noop", "create 0 ok", "regfill 0 64", "stat", "reg 0 0 64"])
     blocks.append(["hnew noop", "create 0 ok", "regfill 0 63", "reg 0 0 63", "stat", "cbunreg 0", "reg 0 1 69", "stat"])
     blocks.append(["hnew vsbx8", "create 0 ok 0", "regfill 0 8", "reg 0 0 8"])
+    # (4) entry points do not leak across incarnations: more destroy/create cycles, each with a registration whose owner
+    #     outlives the sandbox, than the backend has entry points (bundled noop backend: 64; vsbx: 8 and 2)
+    for be, n in (("noop", 70), ("vsbx8", 12), ("vsbx2", 5)):
+        cyc = []
+        for k in range(n):
+            cyc += [f"reg 0 {k % 2} {k % 5}", "destroy 0", "create 0 ok" + ("" if be == "noop" else " 0")]
+        blocks.append([f"hnew {be}", "create 0 ok" + ("" if be == "noop" else " 0")] + cyc + ["reg 0 2 0", "stat", "cbdestroy 0", "cbdestroy 1", "stat", "hprobe 0"])
     out = core.differential_blocks(chk, histcommon.with_end(blocks), binp, oracle, label="callback ownership histories")
     chk.cov["distinct_nontrivial"] = len({tuple(b) for b in blocks})
     chk.cov["traces_validated_against_impl"] = len(blocks)
